@@ -64,13 +64,17 @@ static inline void *vp_exact(uint64_t bytes) {
  * BUF_T is the translated struct { T *f0 (m_chars); uint64 f1 (m_size); struct { T a[L]; } f2 (m_data) }.
  * ------------------------------------------------------------------------------------------ */
 #define VP_BUF_HELPERS(PFX, BUF_T, ELEM_T, L, MAXS)                                              \
-  static void PFX##_mk(BUF_T *b, ELEM_T *shadow) {                                               \
+  /* heap: 1 = heap storage only (size >= L), 0 = in-object only, -1 = both (symbolic); a fixed mode keeps every data     \
+   * pointer single-target, which makes nested scanning loops several times cheaper */                                \
+  static void PFX##_mk_mode(BUF_T *b, ELEM_T *shadow, int heap) {                                \
     uint64_t n = vp_in_u64();                                                                    \
     ASSUME(n <= (MAXS));                                                                         \
     b->f1 = n;                                                                                   \
     /* in-object array: arbitrary bytes (stale data is allowed by Inv) */                        \
     for (int i = 0; i < (L); i++) b->f2.a[i] = (ELEM_T)vp_in_u8();                               \
-    if (n >= (L)) b->f0 = (ELEM_T *)vpx__Znam((n + 1) * sizeof(ELEM_T));                         \
+    if (heap == 1) { ASSUME(n >= (L)); b->f0 = (ELEM_T *)vpx__Znam((n + 1) * sizeof(ELEM_T)); }  \
+    else if (heap == 0) { ASSUME(n < (L)); b->f0 = b->f2.a; }                                    \
+    else if (n >= (L)) b->f0 = (ELEM_T *)vpx__Znam((n + 1) * sizeof(ELEM_T));                    \
     else b->f0 = b->f2.a;                                                                        \
     for (uint64_t i = 0; i < (MAXS); i++) if (i < n) {                                           \
       ELEM_T c = (ELEM_T)(sizeof(ELEM_T) == 1 ? vp_in_u8() : sizeof(ELEM_T) == 2 ? vp_in_u16() : vp_in_u32()); \
@@ -78,6 +82,7 @@ static inline void *vp_exact(uint64_t bytes) {
     }                                                                                            \
     b->f0[n] = 0;                                                                                \
   }                                                                                              \
+  static void PFX##_mk(BUF_T *b, ELEM_T *shadow) { PFX##_mk_mode(b, shadow, -1); }               \
   static int PFX##_inv(const BUF_T *b) {                                                         \
     if (b->f1 < (L)) return b->f0 == b->f2.a && b->f2.a[b->f1] == 0;                             \
     if (b->f1 > (uint64_t)1 << 20) return 0;                                                     \
